@@ -1,12 +1,15 @@
 CONSTANTS
-  Procs = {1, 2}
-  Kinds = {"out", "int"}
+  Procs = {1, 2, 3}
+  Kinds = {"out"}
   LKinds = {"key"}
-  Cap <- MCCap
-  Mode = "enforce"
+  Cap <- MCCap1
+  Mode = "off"
   Lazy = TRUE
   MaxOps = 3
   MaxHeld = 1
+  OpSet = {"debit", "retain", "finish"}
+  Atomic = FALSE
+  GtBug = FALSE
 SPECIFICATION Spec
 INVARIANTS TypeOK AcceptedNeverExceedsCap ShadowNeverRejects ShadowRecordsCrossing OffCountsNothing RequiredRejectionLatches
   BestEffortDoesNotLatch LatchedIsExhausted RefsOK PublishOnce PublishedWhenQuiescent
